@@ -531,10 +531,16 @@ func fsPlan(id string) func(cx *CheckCtx) int {
 	return func(cx *CheckCtx) int {
 		mode := FSMode{Crash: id == "C15", Fault: id == "C16", Errnos: defaultErrnos, MaxPerCmd: 0}
 		nRandom := 3
+		if id == "C15" {
+			nRandom = 8 // crash points are cheap (no re-execution of the command): more histories than for C16
+		}
 		if cx.Tier == "thorough" {
 			mode.Errnos = thoroughErrnos
 			mode.KillSample = 10
-			nRandom = 40
+			nRandom = 120
+			if id == "C15" {
+				nRandom = 240
+			}
 		}
 		stats := &fsStats{ByCmd: map[string]int{}}
 		var smu sync.Mutex
